@@ -64,6 +64,12 @@ pub fn run_find_inproc(cwd: &Path, args: &[String], now: Option<SystemTime>, err
 
 /// Run the real find binary built from /repo.
 pub fn run_find_bin(cwd: &Path, args: &[String], stdin: Option<&[u8]>, env: &[(String, String)], timeout_s: u64) -> FindRun {
+    let a: Vec<std::ffi::OsString> = args.iter().map(std::ffi::OsString::from).collect();
+    run_find_bin_os(cwd, &a, stdin, env, timeout_s)
+}
+
+/// The same with arbitrary (not necessarily UTF-8) arguments.
+pub fn run_find_bin_os(cwd: &Path, args: &[std::ffi::OsString], stdin: Option<&[u8]>, env: &[(String, String)], timeout_s: u64) -> FindRun {
     use std::process::{Command, Stdio};
     let mut c = Command::new(bin_dir().join("find"));
     c.args(args).current_dir(cwd);
